@@ -19,6 +19,7 @@ from gnpy.topology.spectrum_assignment import OMS, BitmapValue, build_oms_list, 
 
 from vf.gen import common as G
 from vf.props import _prop_common as P
+from vf import stock
 from vf.props.c07 import build_narrow
 
 ID = 'C15'
@@ -30,9 +31,9 @@ RULE = ('designed networks whose OMS differ in amplifier bands: shipped multiban
         ' Also lines that end on a transceiver: point-to-point links without ROADMs (some without any amplifier) and a transceiver attached to a ROADM through a line.')
 ASSUMPTIONS = ['the slots within one grid step (6.25 GHz) of a band edge are not judged',
                'amplifier bands are read from the loaded library']
-REQUIRED_COUNTERS = {'oms_lists_built': 20, 'oms_checked': 100, 'bitmap_invariant_evaluations': 200,
+REQUIRED_COUNTERS = {'stock_tests_run': 5, 'stock_bitmap_invariant_evaluations': 500, 'oms_lists_built': 20, 'oms_checked': 100, 'bitmap_invariant_evaluations': 200,
                      'band_marking_checks': 100, 'alignment_sets': 20, 'networks_with_different_bands': 8}
-CASE_TIMEOUT = {'quick': 200, 'thorough': 400}
+CASE_TIMEOUT = {'quick': 400, 'thorough': 1800}
 FREE, OCC, UNU = BitmapValue.FREE, BitmapValue.OCCUPIED, BitmapValue.UNUSABLE
 GRID = 6.25e9
 _INV = {'n': 0, 'fail': None}
@@ -81,7 +82,9 @@ def plan(tier, seed):
     n = 720 if tier == 'quick' else 10000
     kinds = ['multiband_shipped', 'multiband_gen', 'mixed', 'narrow', 'align', 'align', 'multiband_gen', 'narrow',
              'p2p', 'chassis', 'offgrid', 'align']
-    return [{'idx': i, 'kind': kinds[i % len(kinds)]} for i in range(n)]
+    cases = [{'idx': i, 'kind': kinds[i % len(kinds)]} for i in range(n)]
+    # the repository's own tests as one more workload, with the Bitmap invariant on
+    return cases + stock.stock_cases(tier, n, ID)
 
 
 # ------------------------------------------------------------------------------------------------------------
@@ -406,6 +409,8 @@ def run_align(case, ctx):
 
 
 def run_case(case, ctx):
+    if case['kind'] == 'stock':
+        return stock.run_stock_case(case, ctx, ID)
     install()
     if case['kind'] == 'align':
         run_align(case, ctx)
